@@ -83,7 +83,7 @@ Qed.
 (* the columns of well-formed blocks *)
 Lemma column_exist c k out : goodblks c out -> all_exist c (column k out).
 Proof.
-  unfold column. induction 1 as [|blk out (_ & Hb) _ IH]; cbn [flat_map]; [constructor|].
+  unfold column. induction 1 as [|blk out (_ & Hb & _) _ IH]; cbn [flat_map]; [constructor|].
   apply all_exist_app; [|exact IH].
   match goal with |- context [match ?t with Some _ => _ | None => _ end] => destruct t as [x|] eqn:E end; [|constructor].
   destruct (String.eqb x ""); [constructor|]. constructor; [|constructor].
@@ -112,7 +112,7 @@ Proof.
   assert (In b1 (column 1 out)) as Hb1.
   { unfold column. apply in_flat_map. exists (b0 :: b1 :: blk'). split; [exact Hin|]. cbn [nth_error].
     destruct (String.eqb_spec b1 "") as [->|_]; [|left; reflexivity]. exfalso.
-    eapply Forall_forall in Hg; [|exact Hin]. destruct Hg as (_ & Hex).
+    eapply Forall_forall in Hg; [|exact Hin]. destruct Hg as (_ & Hex & _).
     inversion Hex as [|? ? _ Hex']; subst. inversion Hex' as [|? ? Hb _]; subst. unfold noE in H0. congruence. }
   intros E. rewrite E in Hb1. destruct Hb1.
 Qed.
@@ -138,7 +138,7 @@ Section PowTotal.
     { finish. split; [constructor; [exact Hx|constructor]|]. simpl. lia. }
     cbn [resolve_basis ret_res]. rewrite run_ret_bind.
     set (xs := x :: y :: rest) in *.
-    destruct (blocks_outer_ok fresh Hf (BEnum XAIG) XAIG (S (length xs)) xs s eq_refl)
+    destruct (blocks_outer_ok fresh Hf Hfr (BEnum XAIG) XAIG (S (length xs)) xs s eq_refl)
       as ([labels out] & s1 & E1 & H1 & H2 & Hbig & Hsmall); [lia|exact Hx|].
     rewrite (bind_ok _ _ _ _ _ _ E1). cbn [fst snd] in *. cbv beta iota.
     pose proof (noE_run _ _ _ _ (fo_blocks_outer _ _ _ _) E1 H0) as H01.
@@ -164,14 +164,16 @@ Section PowTotal.
       eexists _, _. split; [reflexivity|]. split; [destruct out; discriminate|].
       split; [|split; [exact (noE_run _ _ _ _ (fo_add_sum2 _) E2 H01)|]].
       - apply Forall_app. split; [eapply goodblks_ext; [eapply run_ext; exact E2|exact H2]|].
-        constructor; [|constructor]. split; [discriminate|]. constructor; [exact Ha|constructor; [exact Hc|constructor]].
+        constructor; [|constructor]. split; [discriminate|].
+        split; [constructor; [exact Ha|constructor; [exact Hc|constructor]]|].
+        exact (ArithSumResultsQ.add_sum2_Q fresh nonempty_label Hfr _ _ _ _ E2).
       - apply Forall_app. split; [exact T1|]. constructor; [simpl; lia|constructor]. }
     rewrite (bind_ok _ _ _ _ _ _ E2).
     destruct out' as [|blk0 out'']; [contradiction|].
     destruct (columns_second (bc s2) (blk0 :: out'') blk0 Hg2 H02 (or_introl eq_refl) (Forall_inv T2))
       as (c0 & c1 & rest' & Ecol & Hc1).
     pose proof (columns_exist _ _ Hg2) as Acol. rewrite Ecol in *.
-    destruct (columns_good (bc s2) (blk0 :: out'') ltac:(discriminate) Hg2 H02) as (c0' & rest0 & Ecol' & Hc0).
+    destruct (columns_good (bc s2) (blk0 :: out'') ltac:(discriminate) Hg2) as (c0' & rest0 & Ecol' & Hc0).
     rewrite Ecol in Ecol'. injection Ecol' as <- _.
     destruct (lastP_ok fresh c0 s2 Hc0) as (l & El & Hl).
     rewrite (bind_ok _ _ _ _ _ _ El). finish. cbn [map rev_if]. split.
